@@ -157,6 +157,31 @@ def run(ctx):
         else:
             ctx.nontrivial("returned:" + c["id"])
             ctx.dist("looked_at_on_return")
+    # slow storage must not change what is written: the same history with some operations taking a minute and a half each
+    # (virtual time: a paused clock) against the same history at full speed
+    for t in range(2 if quick else 8):
+        def sf(d, m):
+            return {"k": "f", "data": d.hex(), "mode": 0o644, "mtime": 10**18 + m}
+        tr_ = {"k": "d", "mode": 0o755, "mtime": 10**18, "c": {f"s{i}": sf(b"small-%d" % i, i) for i in range(6)}}
+        tr_["c"]["big"] = sf(bytes(ctx.rng.choice(b"abcdefgh") for _ in range(300)), 50)
+        tr2_ = copy.deepcopy(tr_)
+        tr2_["c"]["s2"] = sf(b"changed-2", 99)
+        oo = {"meph": 100000, "mbs": ctx.rng.choice([64, 1000]), "sfc": ctx.rng.choice([16, 1 << 20])}
+        base_steps = [{"op": "init"}, {"op": "mktree", "path": "src", "tree": tr_}, {"op": "backup", "opts": oo}, {"op": "arch"},
+                      {"op": "mktree", "path": "src", "tree": tr2_}, {"op": "backup", "opts": oo}, {"op": "arch"}]
+        marks_ = [{"kind": "init"}, {"kind": "mktree"}, {"kind": "backup"}, {"kind": "arch"}, {"kind": "mktree"}, {"kind": "backup"}, {"kind": "arch"}]
+        ids = []
+        for name, rt, delays in (("fast", "paused", None), ("slow", "paused", [[k, 90000] for k in range(9 + t, 60, 4)]), ("real", "current", None)):
+            st2 = copy.deepcopy(base_steps)
+            for s_ in st2:
+                if s_["op"] in ("backup", "init"):
+                    s_["runtime"] = rt
+                    if delays and s_["op"] == "backup":
+                        s_["plan"] = {"delays": delays}
+            cid = f"z{t}_{name}"
+            ids.append(cid)
+            cases.append({"id": cid, "steps": st2, "marks": marks_})
+        groups.append((f"z{t}", base_steps, marks_, ids))
     res = ctx.cvh_run(cases, timeout=3000)
     hs = []
     for t, steps, marks, ids in groups:
